@@ -13,8 +13,74 @@ from contextlib import redirect_stdout
 from .model import AnalysisError
 
 
+def _parse_unified(diff_text: str) -> dict[str, list]:
+    """{relpath: [(old_start, [lines with ' ', '-', '+' prefixes])]}"""
+    files: dict[str, list] = {}
+    cur = None
+    hunk = None
+    for line in diff_text.splitlines():
+        if line.startswith("+++ "):
+            path = line[4:].strip()
+            path = path[2:] if path.startswith("b/") else path
+            cur = files.setdefault(path, [])
+            hunk = None
+        elif line.startswith("--- ") or line.startswith("diff ") or line.startswith("index "):
+            continue
+        elif line.startswith("@@") and cur is not None:
+            import re
+            m = re.match(r"@@ -(\d+)(?:,\d+)? \+\d+(?:,\d+)? @@", line)
+            hunk = (int(m.group(1)), [])
+            cur.append(hunk)
+        elif hunk is not None and (line[:1] in (" ", "-", "+") or line == ""):
+            hunk[1].append(line if line else " ")
+        elif line.startswith("\\"):
+            continue
+    return files
+
+
+def _apply_patch_text(src: str, hunks: list) -> str | None:
+    lines = src.split("\n")
+    out = []
+    pos = 0
+    for start, body in hunks:
+        old = [l[1:] for l in body if l[:1] in (" ", "-")]
+        new = [l[1:] for l in body if l[:1] in (" ", "+")]
+        # locate the old block at/after pos (exact match, tolerate small drift)
+        idx = None
+        for cand in [start - 1, *range(max(pos, 0), len(lines))]:
+            if cand >= pos and lines[cand:cand + len(old)] == old:
+                idx = cand
+                break
+        if idx is None:
+            return None
+        out.extend(lines[pos:idx])
+        out.extend(new)
+        pos = idx + len(old)
+    out.extend(lines[pos:])
+    return "\n".join(out)
+
+
 def _apply(root: str, w: dict) -> tuple[dict | None, str]:
     overrides = {}
+    if "patch" in w:
+        try:
+            text = open(w["patch"], encoding="utf-8").read()
+        except OSError:
+            return None, f"patch {w['patch']} missing"
+        for rel, hunks in _parse_unified(text).items():
+            try:
+                src = open(os.path.join(root, rel), encoding="utf-8").read()
+            except OSError:
+                return None, f"file {rel} missing"
+            new = _apply_patch_text(src, hunks)
+            if new is None:
+                return None, f"patch does not apply to {rel}"
+            try:
+                compile(new, rel, "exec")
+            except SyntaxError as ex:
+                return None, f"mutant does not compile: {ex}"
+            overrides[rel] = new
+        return overrides, ""
     edits = w["edits"] if "edits" in w else [w]
     for e in edits:
         path = os.path.join(root, e["file"])
@@ -77,6 +143,18 @@ def run_selftest(pid: str, root: str) -> dict:
     from .check import load_prop
     mod = load_prop(pid)
     witnesses = list(getattr(mod, "WITNESSES", []))
+    # seeded changes (produced independently by sub-agents, confirmed to break the property while the suite stays green) are witnesses too
+    sdir = os.path.join(os.path.dirname(os.path.dirname(os.path.abspath(__file__))), "seeded")
+    if os.path.isdir(sdir):
+        for name in sorted(os.listdir(sdir)):
+            pf = os.path.join(sdir, name, "patch.diff")
+            mf = os.path.join(sdir, name, "meta.json")
+            if name.startswith(pid + "-") and os.path.exists(pf) and os.path.exists(mf):
+                import json as _json
+                meta = _json.load(open(mf, encoding="utf-8"))
+                if meta.get("expected_static") is False:
+                    continue
+                witnesses.append({"name": f"seeded {name}", "patch": pf, "rule": meta.get("expected_rule", "")})
     if not witnesses:
         return {"witnesses": 0, "failed": [], "results": []}
     jobs = [(pid, root, w) for w in witnesses]
